@@ -86,6 +86,7 @@ type Outcome struct {
 	Info        *analysis.ProgramInfo
 	Facts       map[string]ast.Atom // canonical key -> atom, internal predicates excluded
 	Overrun     *Overrun            // the bounded store aborted the evaluation (RunBounded)
+	Store       factstore.FactStore // the (unwrapped) store the evaluation wrote to
 	NonGround   []string
 }
 
@@ -216,6 +217,7 @@ func RunBounded(text string, extra []Fact, storeKind string, bound int, opts ...
 		out.EvalErr = engine.EvalProgram(out.Info, store, opts...)
 	}()
 	store = inner
+	out.Store = inner
 	if out.Panic == "" {
 		ReadStore(store, &out)
 	}
@@ -290,5 +292,35 @@ func DiffListsAsSets(ref Model, got map[string]ast.Atom, asSet func(pred string)
 	}
 	sort.Strings(missing)
 	sort.Strings(extra)
+	return
+}
+
+// RunAgain evaluates the analysed program of a finished run once more on the same store, after adding the
+// late facts to it: what the store holds at that moment (base facts, facts derived by the first evaluation,
+// late facts) is the base of the second evaluation. The bound is as for RunBounded.
+func RunAgain(first *Outcome, store factstore.FactStore, late []Fact, bound int, opts ...engine.EvalOption) (out Outcome) {
+	out.Info = first.Info
+	for _, f := range late {
+		store.Add(f.ToAtom())
+	}
+	target := store
+	if bound >= 0 {
+		target = Bounded(store, bound)
+	}
+	func() {
+		defer func() {
+			if r := recover(); r != nil {
+				if o, ok := r.(Overrun); ok {
+					out.Overrun = &o
+					return
+				}
+				out.Panic, out.PanicStage = fmt.Sprint(r), "eval"
+			}
+		}()
+		out.EvalErr = engine.EvalProgram(out.Info, target, opts...)
+	}()
+	if out.Panic == "" {
+		ReadStore(store, &out)
+	}
 	return
 }
